@@ -12,37 +12,41 @@ package storage
 //@ spec func tx_unchanged() bool = tx_open == old(tx_open) && tx_begun == old(tx_begun) && tx_committed == old(tx_committed) && tx_rolledback == old(tx_rolledback) && tx_commit_calls == old(tx_commit_calls) && tx_rollback_calls == old(tx_rollback_calls)
 
 //@ interface Transactional.BeginTX
-//@   modifies tx_open, tx_begun, snap_code_active, snap_acc_exists, snap_ref_exists, snap_ref_active, snap_dev_live, faults
-//@   ensures err == nil ==> tx_open == old(tx_open) + 1 && tx_begun == old(tx_begun) + 1 && snap_code_active == code_active && snap_acc_exists == acc_exists && snap_ref_exists == ref_exists && snap_ref_active == ref_active && snap_dev_live == dev_live && faults == old(faults)
-//@   ensures err != nil ==> tx_open == old(tx_open) && tx_begun == old(tx_begun) && snaps_unchanged() && faults == old(faults) + 1
+//@   modifies tx_ctx, tx_open, tx_begun, snap_code_active, snap_acc_exists, snap_ref_exists, snap_ref_active, snap_dev_live, faults
+//@   ensures err == nil ==> tx_ctx == result0 && tx_open == old(tx_open) + 1 && tx_begun == old(tx_begun) + 1 && snap_code_active == code_active && snap_acc_exists == acc_exists && snap_ref_exists == ref_exists && snap_ref_active == ref_active && snap_dev_live == dev_live && faults == old(faults)
+//@   ensures err != nil ==> tx_ctx == old(tx_ctx) && tx_open == old(tx_open) && tx_begun == old(tx_begun) && snaps_unchanged() && faults == old(faults) + 1
 
 //@ interface Transactional.Commit
-//@   modifies tx_open, tx_committed, tx_commit_calls, faults
+//@   modifies tx_open, tx_committed, tx_commit_calls, faults, tx_escaped
+//@   ensures tx_escaped == old(tx_escaped) + ((old(tx_open) > 0 && ctx != tx_ctx) ? 1 : 0)
 //@   ensures tx_commit_calls == old(tx_commit_calls) + 1
 //@   ensures err == nil ==> tx_open == old(tx_open) - 1 && tx_committed == old(tx_committed) + 1 && faults == old(faults)
 //@   ensures err != nil ==> tx_open == old(tx_open) && tx_committed == old(tx_committed) && faults == old(faults) + 1
 
 //@ interface Transactional.Rollback
-//@   modifies tx_open, tx_rolledback, tx_rollback_calls, code_active, acc_exists, ref_exists, ref_active, dev_live, faults
+//@   modifies tx_escaped, tx_open, tx_rolledback, tx_rollback_calls, code_active, acc_exists, ref_exists, ref_active, dev_live, faults
 //@   ensures tx_rollback_calls == old(tx_rollback_calls) + 1
+//@   ensures tx_escaped == old(tx_escaped) + ((old(tx_open) > 0 && ctx != tx_ctx) ? 1 : 0)
 //@   ensures err == nil ==> tx_open == old(tx_open) - 1 && tx_rolledback == old(tx_rolledback) + 1 && code_active == snap_code_active && acc_exists == snap_acc_exists && ref_exists == snap_ref_exists && ref_active == snap_ref_active && dev_live == snap_dev_live && faults == old(faults)
 //@   ensures err != nil ==> tx_open == old(tx_open) && tx_rolledback == old(tx_rolledback) && code_active == old(code_active) && acc_exists == old(acc_exists) && ref_exists == old(ref_exists) && ref_active == old(ref_active) && dev_live == old(dev_live) && faults == old(faults) + 1
 
 //@ func MaybeBeginTx
-//@   modifies tx_open, tx_begun, snap_code_active, snap_acc_exists, snap_ref_exists, snap_ref_active, snap_dev_live, faults
-//@   ensures [C18.maybe-begin] !implements(storage, Transactional) ==> err == nil && result0 == ctx && tx_unchanged() && snaps_unchanged() && faults == old(faults)
-//@   ensures [C18.maybe-begin] implements(storage, Transactional) && err == nil ==> tx_open == old(tx_open) + 1 && tx_begun == old(tx_begun) + 1 && snap_code_active == code_active && snap_acc_exists == acc_exists && snap_ref_exists == ref_exists && snap_ref_active == ref_active && snap_dev_live == dev_live && faults == old(faults)
-//@   ensures [C18.maybe-begin] implements(storage, Transactional) && err != nil ==> tx_unchanged() && snaps_unchanged() && faults == old(faults) + 1
+//@   modifies tx_ctx, tx_open, tx_begun, snap_code_active, snap_acc_exists, snap_ref_exists, snap_ref_active, snap_dev_live, faults
+//@   ensures [C18.maybe-begin] !implements(storage, Transactional) ==> tx_ctx == old(tx_ctx) && err == nil && result0 == ctx && tx_unchanged() && snaps_unchanged() && faults == old(faults)
+//@   ensures [C18.maybe-begin] implements(storage, Transactional) && err == nil ==> tx_ctx == result0 && tx_open == old(tx_open) + 1 && tx_begun == old(tx_begun) + 1 && snap_code_active == code_active && snap_acc_exists == acc_exists && snap_ref_exists == ref_exists && snap_ref_active == ref_active && snap_dev_live == dev_live && faults == old(faults)
+//@   ensures [C18.maybe-begin] implements(storage, Transactional) && err != nil ==> tx_ctx == old(tx_ctx) && tx_unchanged() && snaps_unchanged() && faults == old(faults) + 1
 
 //@ func MaybeCommitTx
-//@   modifies tx_open, tx_committed, tx_commit_calls, faults
+//@   modifies tx_open, tx_committed, tx_commit_calls, faults, tx_escaped
+//@   ensures [C18.maybe-commit] tx_escaped == old(tx_escaped) + ((implements(storage, Transactional) && old(tx_open) > 0 && ctx != tx_ctx) ? 1 : 0)
 //@   ensures [C18.maybe-commit] implements(storage, Transactional) ==> tx_commit_calls == old(tx_commit_calls) + 1 && tx_rollback_calls == old(tx_rollback_calls) && tx_begun == old(tx_begun) && tx_rolledback == old(tx_rolledback)
 //@   ensures [C18.maybe-commit] !implements(storage, Transactional) ==> err == nil && tx_unchanged() && faults == old(faults)
 //@   ensures [C18.maybe-commit] implements(storage, Transactional) && err == nil ==> tx_open == old(tx_open) - 1 && tx_committed == old(tx_committed) + 1 && faults == old(faults)
 //@   ensures [C18.maybe-commit] implements(storage, Transactional) && err != nil ==> tx_open == old(tx_open) && tx_committed == old(tx_committed) && faults == old(faults) + 1
 
 //@ func MaybeRollbackTx
-//@   modifies tx_open, tx_rolledback, tx_rollback_calls, code_active, acc_exists, ref_exists, ref_active, dev_live, faults
+//@   modifies tx_escaped, tx_open, tx_rolledback, tx_rollback_calls, code_active, acc_exists, ref_exists, ref_active, dev_live, faults
+//@   ensures [C18.maybe-rollback] tx_escaped == old(tx_escaped) + ((implements(storage, Transactional) && old(tx_open) > 0 && ctx != tx_ctx) ? 1 : 0)
 //@   ensures [C18.maybe-rollback] implements(storage, Transactional) ==> tx_rollback_calls == old(tx_rollback_calls) + 1 && tx_commit_calls == old(tx_commit_calls) && tx_begun == old(tx_begun) && tx_committed == old(tx_committed)
 //@   ensures [C18.maybe-rollback] !implements(storage, Transactional) ==> err == nil && tx_unchanged() && code_active == old(code_active) && acc_exists == old(acc_exists) && ref_exists == old(ref_exists) && ref_active == old(ref_active) && dev_live == old(dev_live) && faults == old(faults)
 //@   ensures [C18.maybe-rollback] implements(storage, Transactional) && err == nil ==> tx_open == old(tx_open) - 1 && tx_rolledback == old(tx_rolledback) + 1 && code_active == snap_code_active && acc_exists == snap_acc_exists && ref_exists == snap_ref_exists && ref_active == snap_ref_active && dev_live == snap_dev_live && faults == old(faults)
